@@ -2,6 +2,8 @@ package checks
 
 import (
 	"fmt"
+	"os"
+	"path/filepath"
 	"strings"
 	"time"
 
@@ -80,6 +82,48 @@ func c14Observe(src string) (o c14Obs, pan string) {
 	return o, ""
 }
 
+var c14FSDir string
+
+// c14ObserveFS observes src loaded from disk through stick's FilesystemLoader (the auxiliary templates of the corpus
+// are written once per worker): what a template means does not depend on the loader that delivers it.
+func c14ObserveFS(src string) (o c14Obs, pan string) {
+	if c14FSDir == "" {
+		c14FSDir = filepath.Join(core.WorkDir, "c14fs")
+		if core.WorkDir == "" {
+			c14FSDir, _ = os.MkdirTemp("", "c14fs")
+		}
+		os.MkdirAll(c14FSDir, 0o755)
+		for n, t := range corpusTpls {
+			os.WriteFile(filepath.Join(c14FSDir, n), []byte(t), 0o644)
+		}
+	}
+	if err := os.WriteFile(filepath.Join(c14FSDir, "main"), []byte(src), 0o644); err != nil {
+		return o, ""
+	}
+	env := stick.New(stick.NewFilesystemLoader(c14FSDir))
+	addStdCallbacks(env)
+	_, perr, pp := tryEnvParse(env, "main")
+	if pp != "" {
+		return o, pp
+	}
+	if perr != nil {
+		o.perr = "parse-error"
+		return o, ""
+	}
+	for _, ctx := range []map[string]stick.Value{stdCtx(), c14Ctx2} {
+		out, err, p := tryExec(env, "main", ctx)
+		if p != "" {
+			return o, p
+		}
+		e := ""
+		if err != nil {
+			e = " ERR"
+		}
+		o.outs = append(o.outs, out+e)
+	}
+	return o, ""
+}
+
 func c14Run(c core.Case) core.Result {
 	items := c14Items()
 	if c.N[0] >= len(items) {
@@ -120,6 +164,15 @@ func c14Run(c core.Case) core.Result {
 			return core.Violation("parse-verdict", fmt.Sprintf("%q does not parse but its re-spelling %q does", it.src, respelled))
 		}
 		return core.Violation("parse-verdict", fmt.Sprintf("%q parses but its re-spelling %q does not", it.src, respelled))
+	}
+	if len(devs) <= 1 {
+		fs, fpan := c14ObserveFS(respelled)
+		if fpan != "" {
+			return core.Violation("panic", fmt.Sprintf("%q loaded through the filesystem loader panicked: %s", respelled, fpan))
+		}
+		if fs.perr != got.perr || strings.Join(fs.outs, "\x00") != strings.Join(got.outs, "\x00") {
+			return core.Violation("loader-dependent", fmt.Sprintf("%q loaded from a file gives %q %q, from memory %q %q", respelled, fs.perr, fs.outs, got.perr, got.outs))
+		}
 	}
 	if canon.perr != "" {
 		r := core.Okay(len(devs) > 0, "rejected in every spelling")
@@ -212,7 +265,7 @@ func c14Gen(maxDev int, small bool, tagsOnly bool, emit func(core.Case)) {
 func c14Levels(tier string) []core.Level {
 	lv := []core.Level{
 		{Name: "canonical spellings parse and render (0 deviations)", Gen: func(emit func(core.Case)) { c14Gen(0, false, false, emit) }},
-		{Name: "every spelling with 1 deviation (whitespace choice from 6, quote style, trailing comma, '-' marker)", Gen: func(emit func(core.Case)) { c14Gen(1, false, false, emit) }},
+		{Name: "every spelling with 1 deviation (whitespace choice from 7 (tab, newline, CR LF, two blanks, mixed, bare CR; none where the neighbours cannot merge), quote style, trailing comma, '-' marker)", Gen: func(emit func(core.Case)) { c14Gen(1, false, false, emit) }},
 		{Name: "every spelling with <= 2 deviations", Gen: func(emit func(core.Case)) { c14Gen(2, false, false, emit) }},
 	}
 	if thorough(tier) {
